@@ -12,6 +12,7 @@ import Cfdm.Driver.C07
 import Cfdm.Driver.C08
 import Cfdm.Driver.C02
 import Cfdm.Driver.C04
+import Cfdm.Driver.C11
 open Cfdm.Driver
 
 def step (line : String) : String :=
@@ -35,6 +36,7 @@ def step (line : String) : String :=
       | ["C08", sub] => C08.run sub kv
       | ["C02", sub] => C02.run sub kv
       | ["C04", sub] => C04.run sub kv
+      | ["C11", sub] => C11.run sub kv
       | _ => "bad-op"
 
 partial def loop (h : IO.FS.Stream) : IO Unit := do
